@@ -1,6 +1,7 @@
 package main
 
 import (
+	"go/types"
 	"fmt"
 	"go/constant"
 	"go/token"
@@ -15,10 +16,12 @@ func init() {
 	register(&Check{
 		ID:  "C20",
 		Run: runC20,
-		Explanation: "Decides that resources are substituted only after a full structural equality check, and that the equality has the shape of an equality: (R1 gate) every registration of a duplicate (map updates of OptimizationContext.DuplicateFonts / DuplicateImages and the hand-out of a replacement object number in handleDuplicateFontObject, handleDuplicateImageObject and the form/content duplicate detectors) is reached only on the true edge of model.EqualObjects applied to the two candidates — a name or hash match alone is not enough; (R2 shape) in model.EqualObjects the null case returns `o2 == nil` (symmetric; an `o2 != nil` makes null equal to everything), different dynamic types return false, the kind switch covers every value kind and its default reports an error with ok=false; equalDicts returns true only after the lengths were compared equal and every key of d1 was looked up in d2 with a `!found -> false` exit and compared (through EqualObjects or the font-name rule) with a `!ok -> false` exit; equalArrays likewise (length, element-wise); equalStreamDicts compares the dictionaries and then the raw bytes with bytes.Equal. (R3) model.weaveResourceSubDict, which merges a page node's own resource sub-dictionary into the inherited one during ConsolidatePageResources, stores d2[k] on every iteration of its loop over d1 — the nearer definition always overrides the inherited one (ISO 32000-1 7.7.3.4); a skip for keys that already exist would let an ancestor's resource win over the page's own. NOT decided: that the page-tree walk visits what it should, content-stream identity, idempotence.",
+		Explanation: "Decides that resources are substituted only after a full structural equality check, and that the equality has the shape of an equality: (R1 gate) every registration of a duplicate (map updates of OptimizationContext.DuplicateFonts / DuplicateImages and the hand-out of a replacement object number in handleDuplicateFontObject, handleDuplicateImageObject and the form/content duplicate detectors) is reached only on the true edge of model.EqualObjects applied to the two candidates — a name or hash match alone is not enough; (R2 shape) in model.EqualObjects the null case returns `o2 == nil` (symmetric; an `o2 != nil` makes null equal to everything), different dynamic types return false, the kind switch covers every value kind and its default reports an error with ok=false; equalDicts returns true only after the lengths were compared equal and every key of d1 was looked up in d2 with a `!found -> false` exit and compared (through EqualObjects or the font-name rule) with a `!ok -> false` exit; equalArrays likewise (length, element-wise); equalStreamDicts compares the dictionaries and then the raw bytes with bytes.Equal. (R3) model.weaveResourceSubDict, which merges a page node's own resource sub-dictionary into the inherited one during ConsolidatePageResources, stores d2[k] on every iteration of its loop over d1 — the nearer definition always overrides the inherited one (ISO 32000-1 7.7.3.4); a skip for keys that already exist would let an ancestor's resource win over the page's own. (R4) model.skipStringLiteral, the content-stream scanner whose result decides which resources of a page are used (and which are pruned), counts backslash parity before it accepts a closing parenthesis; (R5) every hit in Optimize.DuplicateFonts / DuplicateImages is followed, before the iteration ends or the function returns, by a redirect of the resource entry (store into a types.Dict) or by returning the replacement object number — a skipped duplicate keeps a reference to an object that a later pass removes. NOT decided: that the page-tree walk visits what it should, content-stream identity, idempotence.",
 		Rules: []string{
 			"C20.R1 MPT: duplicate registration only on EqualObjects == true",
 			"C20.R2 shape: null/type/kind handling of EqualObjects; size + all-elements shape of equalDicts/equalArrays/equalStreamDicts",
+			"C20.R5 MPT: a hit in DuplicateFonts/DuplicateImages is followed by a redirect of the resource entry (or the replacement is returned)",
+			"C20.R4 shape: the content scanner that decides which resources a page uses tracks backslash parity when it skips string literals",
 			"C20.R3 shape: resource inheritance consolidation lets the nearer definition override (unconditional store per key)",
 		},
 		Assumptions: []string{"bytes.Equal and == on scalar object kinds are equalities"},
@@ -32,6 +35,10 @@ func runC20(c *Ctx) {
 	r.MinInst["C20.R1"] = 3
 	r.MinInst["C20.R2"] = 6
 	r.MinInst["C20.R3"] = 1
+	r.MinInst["C20.R4"] = 1
+	checkEscapeParity(c, "C20.R4", "pkg/pdfcpu/model.skipStringLiteral")
+	r.MinInst["C20.R5"] = 1
+	checkDuplicateHitsRedirect(c)
 	// ---- R1
 	n := 0
 	for _, fn := range p.Funcs {
@@ -367,5 +374,100 @@ func runC20(c *Ctx) {
 		} else {
 			r.Bad("C20.R2", FuncID(fn), "dict+raw", p.Pos(fn.Pos()), fmt.Sprintf("equalStreamDicts no longer compares both the dictionaries (%v) and the raw stream bytes (%v)", dictCmp, rawCmp))
 		}
+	}
+}
+
+// ---------------- C20.R5 (round 2 of seeding): a known duplicate is always redirected ----------------
+//
+// When a lookup in Optimize.DuplicateFonts / DuplicateImages hits, the object is going to be dropped from the output. Every path
+// from the hit to the end of the iteration (or to a return) must therefore redirect the resource entry to the original — a
+// store into a types.Dict — or hand the replacement object number to the caller (non-nil *int result). Skipping the entry
+// (`continue`) leaves a reference to an object that a later pass removes: the first optimisation is then not the last.
+func checkDuplicateHitsRedirect(c *Ctx) {
+	p, r := c.P, c.R
+	n := 0
+	for _, fn := range p.Funcs {
+		fid := FuncID(fn)
+		if !strings.HasPrefix(fid, "pkg/pdfcpu.") {
+			continue
+		}
+		fn := fn
+		eachInstr(fn, func(_ *ssa.BasicBlock, _ int, i ssa.Instruction) {
+			lk, ok := i.(*ssa.Lookup)
+			if !ok || !lk.CommaOk {
+				return
+			}
+			fp := fieldPath(lk.X)
+			if !strings.HasSuffix(fp, "DuplicateFonts") && !strings.HasSuffix(fp, "DuplicateImages") {
+				return
+			}
+			var okv ssa.Value
+			for _, rf := range *lk.Referrers() {
+				if ex, ok := rf.(*ssa.Extract); ok && ex.Index == 1 {
+					okv = ex
+				}
+			}
+			if okv == nil {
+				return
+			}
+			var edges []Edge
+			for _, al := range wideAliases(okv) {
+				edges = append(edges, condEdges(al, true)...)
+			}
+			for _, e := range edges {
+				n++
+				construct := fmt.Sprintf("%s hit#%d", fp[strings.LastIndex(fp, ".")+1:], n)
+				bad := ""
+				type st struct {
+					b    *ssa.BasicBlock
+					done bool
+				}
+				seen := map[st]bool{}
+				var walk func(b *ssa.BasicBlock, done bool)
+				walk = func(b *ssa.BasicBlock, done bool) {
+					if seen[st{b, done}] || bad != "" {
+						return
+					}
+					seen[st{b, done}] = true
+					for _, in := range b.Instrs {
+						if mu, ok := in.(*ssa.MapUpdate); ok && typeNameOf(mu.Map.Type()) == "Dict" {
+							done = true
+						}
+					}
+					switch t := b.Instrs[len(b.Instrs)-1].(type) {
+					case *ssa.Return:
+						if done {
+							return
+						}
+						if k, has := returnErrKind(t); has && k == errNonNil {
+							return
+						}
+						if len(t.Results) > 0 {
+							if _, isPtr := t.Results[0].Type().Underlying().(*types.Pointer); isPtr && !isNilConst(t.Results[0]) {
+								return // replacement handed to the caller
+							}
+						}
+						bad = p.Pos(t.Pos())
+						return
+					}
+					for _, s := range b.Succs {
+						if edgeDominates(e, s) {
+							walk(s, done)
+						} else if !done {
+							bad = p.Pos(lastPos(b))
+						}
+					}
+				}
+				walk(e.From.Succs[e.Succ], false)
+				if bad == "" {
+					r.OK("C20.R5", fid, construct, p.Pos(lk.Pos()), "every path from the hit redirects the resource entry (store into a Dict) or returns the replacement object number", true)
+				} else {
+					r.Bad("C20.R5", fid, construct, p.Pos(lk.Pos()), "an object known to be a duplicate is skipped at "+bad+" without redirecting the resource entry to the original: the entry keeps pointing to an object a later optimisation removes, so optimising the optimised document changes it again")
+				}
+			}
+		})
+	}
+	if n == 0 {
+		r.Bad("C20.R5", "pkg/pdfcpu", "anchor", "", "UNRESOLVED-ANCHOR: no lookup in DuplicateFonts/DuplicateImages found")
 	}
 }
